@@ -940,6 +940,367 @@ fn spec_transitions(sys: &Sys, t: f64, x: f64, p: f64, y: &[f64], bubble: bool, 
 
 // ------------------------------------------------------------------------------------------------
 
+// ------------------------------------------------------------------------------------------------
+// F. heteroazeotropes (three-phase equilibria of partially miscible binaries) and the phase-diagram driver built on them
+
+type Vlle = PhaseEquilibrium<Eos, 3>;
+const TOL_HETERO: f64 = 1e-8; // default tolerance of heteroazeotrope_t / _p on the residual norm (reduced units)
+
+fn hetero_eos(other: &str) -> Option<Arc<Eos>> {
+    let inp: Vec<(Vec<&str>, String)> = vec![
+        (vec!["water_np"], format!("{}/tests/pcsaft/test_parameters.json", configs::repo())),
+        (vec![other], format!("{}/pcsaft/gross2001.json", configs::params())),
+    ];
+    let p = PcSaftParameters::from_multiple_json(&inp, None, IdentifierOption::Name).ok()?;
+    Some(Arc::new(PcSaft::new(Arc::new(p))))
+}
+
+#[derive(Clone, Debug)]
+struct HetCase {
+    other: String,
+    /// true: temperature specified (value in K), false: pressure specified (reduced)
+    tspec: bool,
+    spec: f64,
+    x_init: (f64, f64),
+    tp_init: Option<f64>,
+    /// 0 default, 1 tol 1e-6, 2 tol 1e-10 + max_iter 200, 3 default + asymmetric bubble/dew options
+    opt: usize,
+}
+
+impl HetCase {
+    fn arg(&self) -> String {
+        format!("{}|{}|{:?}|{:?}|{:?}|{}|{}", self.other, if self.tspec { "T" } else { "p" }, self.spec, self.x_init.0, self.x_init.1,
+            self.tp_init.map(|v| format!("{v:?}")).unwrap_or_else(|| "none".into()), self.opt)
+    }
+    fn parse(a: &str) -> HetCase {
+        let f: Vec<&str> = a.split('|').collect();
+        HetCase { other: f[0].into(), tspec: f[1] == "T", spec: f[2].parse().unwrap(), x_init: (f[3].parse().unwrap(), f[4].parse().unwrap()),
+            tp_init: if f[5] == "none" { None } else { Some(f[5].parse().unwrap()) }, opt: f[6].parse().unwrap() }
+    }
+    fn options(&self) -> (SolverOptions, (SolverOptions, SolverOptions), f64) {
+        match self.opt {
+            1 => (SolverOptions::new().tol(1e-6), Default::default(), 1e-6),
+            2 => (SolverOptions::new().tol(1e-10).max_iter(200), Default::default(), 1e-10),
+            3 => (SolverOptions::default(), (SolverOptions::new().tol(1e-3), SolverOptions::new().tol(1e-6)), TOL_HETERO),
+            _ => (SolverOptions::default(), Default::default(), TOL_HETERO),
+        }
+    }
+    fn run(&self, eos: &Arc<Eos>) -> Result<Vlle, String> {
+        let (o, bd, _) = self.options();
+        if self.tspec {
+            run_guard(|| Vlle::heteroazeotrope(eos, Temperature::from_reduced(self.spec), self.x_init, self.tp_init.map(Pressure::from_reduced), o, bd))
+        } else {
+            run_guard(|| Vlle::heteroazeotrope(eos, Pressure::from_reduced(self.spec), self.x_init, self.tp_init.map(Temperature::from_reduced), o, bd))
+        }
+    }
+}
+
+struct HetVectors {
+    t: [f64; 3],
+    p: [f64; 3],
+    mu: [Vec<f64>; 3],
+    rho: [Vec<f64>; 3],
+}
+
+/// (vapor, liquid1, liquid2) through the public API
+fn het_vectors(v: &Vlle) -> HetVectors {
+    let ph = [v.vapor(), v.liquid1(), v.liquid2()];
+    HetVectors {
+        t: [ph[0].temperature.to_reduced(), ph[1].temperature.to_reduced(), ph[2].temperature.to_reduced()],
+        p: [0, 1, 2].map(|k| ph[k].pressure(Contributions::Total).to_reduced()),
+        mu: [0, 1, 2].map(|k| ph[k].residual_chemical_potential().to_reduced().to_vec()),
+        rho: [0, 1, 2].map(|k| ph[k].partial_density.to_reduced().to_vec()),
+    }
+}
+
+/// the residual norm of heteroazeotrope_t / _p recomputed from public-API values (f64)
+fn het_residual(h: &HetVectors, pspec: Option<f64>) -> f64 {
+    let t = h.t[0];
+    let mut r = Vec::new();
+    for l in [1, 2] {
+        for i in 0..2 {
+            r.push(h.mu[l][i] - h.mu[0][i] + t * (h.rho[l][i] / h.rho[0][i]).ln());
+        }
+    }
+    match pspec {
+        None => {
+            r.push(h.p[1] - h.p[0]);
+            r.push(h.p[2] - h.p[0]);
+        }
+        Some(p) => {
+            r.push(h.p[1] - p);
+            r.push(h.p[2] - p);
+            r.push(h.p[0] - p);
+        }
+    }
+    r.iter().map(|x| x * x).sum::<f64>().sqrt()
+}
+
+struct HetStats {
+    attempted: usize,
+    found: usize,
+    worst_res_over_tol: f64,
+    worst_dlnf_times_t_over_tol: f64,
+    worst_dp_over_tol: f64,
+    worst_dt: f64,
+    diagram_states: usize,
+    negative_pressure: usize,
+}
+
+/// every condition the property states for a returned three-phase result, with bounds derived from the REQUESTED tolerance
+/// (theorems hetero_res_bound_T / _p: the returned state is the tested one)
+fn het_checks(c: &HetCase, v: &Vlle, st: &mut HetStats) -> Vec<String> {
+    let mut bad = Vec::new();
+    let (_, _, tol) = c.options();
+    let h = het_vectors(v);
+    let names = ["vapor", "liquid1", "liquid2"];
+    // one temperature, exactly; the specified one, exactly
+    for k in 1..3 {
+        st.worst_dt = st.worst_dt.max((h.t[k] - h.t[0]).abs());
+        if h.t[k] != h.t[0] {
+            bad.push(format!("phases have different temperatures: {} at {} K, vapor at {} K", names[k], h.t[k], h.t[0]));
+        }
+    }
+    if c.tspec && h.t[0] != c.spec {
+        bad.push(format!("temperature {} differs from the specified {}", h.t[0], c.spec));
+    }
+    // one pressure; the specified one
+    let floor = 1e-13;
+    for k in 1..3 {
+        let d = (h.p[k] - h.p[0]).abs();
+        let allowed = if c.tspec { tol } else { 2.0 * tol } * 1.000001 + floor;
+        st.worst_dp_over_tol = st.worst_dp_over_tol.max(d / allowed);
+        if !(d <= allowed) {
+            bad.push(format!("phase pressures differ: {} {} vs vapor {} (|difference| {:e} > {:e} allowed for the requested tolerance)", names[k], h.p[k], h.p[0], d, allowed));
+        }
+    }
+    if !c.tspec {
+        for k in 0..3 {
+            let d = (h.p[k] - c.spec).abs();
+            if !(d <= tol * 1.000001 + floor) {
+                bad.push(format!("{} pressure {} is not the specified {} (|difference| {:e} > requested tolerance {:e})", names[k], h.p[k], c.spec, d, tol));
+            }
+        }
+    }
+    // the stopping test itself, recomputed
+    let res = het_residual(&h, if c.tspec { None } else { Some(c.spec) });
+    st.worst_res_over_tol = st.worst_res_over_tol.max(res / tol);
+    if !(res < tol * 1.000001 + 1e-12) {
+        bad.push(format!("residual norm of the returned phases {:e} is not below the requested tolerance {:e}", res, tol));
+    }
+    // isofugacity (ln f_i = mu_i/T + ln rho_i + ln T, each phase with its own T), liquid k vs vapor: < tol / T
+    let lnf = |k: usize, i: usize| h.mu[k][i] / h.t[k] + h.rho[k][i].ln() + h.t[k].ln();
+    for k in 1..3 {
+        for i in 0..2 {
+            let d = (lnf(k, i) - lnf(0, i)).abs();
+            let allowed = tol / h.t[0] * 1.000001 + 1e-12;
+            st.worst_dlnf_times_t_over_tol = st.worst_dlnf_times_t_over_tol.max(d / allowed);
+            if !(d <= allowed) {
+                bad.push(format!("fugacity of component {i} differs between {} and vapor: |d ln f| = {:e} > {:e} allowed for the requested tolerance", names[k], d, allowed));
+            }
+        }
+    }
+    // ... and through the independent ln_phi path (ln f = ln x + ln phi + ln p), looser (pressure mismatch enters)
+    let ph = [v.vapor(), v.liquid1(), v.liquid2()];
+    let f: Vec<Vec<f64>> = ph.iter().map(|s| ln_fug(s)).collect();
+    // (a metastable three-phase solution at negative pressure has no ln p: only counted, the mu-based test above decides)
+    let positive_p = h.p.iter().all(|p| *p > 0.0);
+    if !positive_p {
+        st.negative_pressure += 1;
+    }
+    for k in 1..3 {
+        if !positive_p {
+            break;
+        }
+        for i in 0..2 {
+            let d = (f[k][i] - f[0][i]).abs();
+            if !(d <= tol / h.t[0] + 1e-9 + (h.p[k] / h.p[0]).ln().abs()) {
+                bad.push(format!("fugacity (ln_phi path) of component {i} differs between {} and vapor by {:e}", names[k], d));
+            }
+        }
+    }
+    // the phases are not copies of each other
+    for (a, b) in [(0, 1), (0, 2), (1, 2)] {
+        let dist = h.rho[a].iter().zip(h.rho[b].iter()).fold(0.0f64, |m, (x, y)| (y / x - 1.0).abs().max(m));
+        if !(dist >= MIN_DISTINCT) {
+            bad.push(format!("{} and {} are copies of each other", names[a], names[b]));
+        }
+    }
+    if !bad.is_empty() {
+        bad.push(format!("[T = {:?}, p = {:?}, x_l1 = {:?}, x_l2 = {:?}, y = {:?}]", h.t, h.p, v.liquid1().molefracs.to_vec(), v.liquid2().molefracs.to_vec(), v.vapor().molefracs.to_vec()));
+    }
+    bad
+}
+
+fn het_goal(g: &mut ResGoals, c: &HetCase, v: &Vlle) {
+    let h = het_vectors(v);
+    let (_, _, tol) = c.options();
+    let args = format!("(dy_R {}%Z) {} {} {} {} {} {} (dy_R {}%Z) (dy_R {}%Z) (dy_R {}%Z)",
+        dyadic(h.t[0]), rlist(&h.mu[1]), rlist(&h.mu[2]), rlist(&h.mu[0]), rlist(&h.rho[1]), rlist(&h.rho[2]), rlist(&h.rho[0]),
+        dyadic(h.p[1]), dyadic(h.p[2]), dyadic(h.p[0]));
+    if c.tspec {
+        g.v.push_str(&format!("Goal hetero_err_T {args} < {:e} * (1 + 1e-6) + 1e-12.\nProof. res_interval. Qed.\n", tol));
+    } else {
+        g.v.push_str(&format!("Goal hetero_err_p {args} (dy_R {}%Z) < {:e} * (1 + 1e-6) + 1e-12.\nProof. res_interval. Qed.\n", dyadic(c.spec), tol));
+    }
+    g.meta.push(json!({"goal": g.meta.len(), "kind": if c.tspec { "hetero_accept_T" } else { "hetero_accept_p" }, "tag": c.arg(),
+        "harness_f64_residual": het_residual(&h, if c.tspec { None } else { Some(c.spec) }), "requested_tolerance": tol}));
+}
+
+fn het_failure(c: &HetCase, kind: &str, what: String) -> Value {
+    json!({"key": {"pair": ["water_np", c.other], "kind": kind, "T": c.spec, "x": c.x_init.0}, "what": what,
+        "detail": {"case": format!("{c:?}")}, "hetero_point": c.arg(), "s": 0.5, "ntot": 0.0, "Tc": [0.0, 0.0]})
+}
+
+fn hetero_search(out: &str, full: bool, seed: u64) -> (Vec<Value>, Value, Vec<(String, Vec<Value>)>) {
+    let mut rng = Rng(seed ^ 0x4E7E40);
+    let mut failures = Vec::new();
+    let mut st = HetStats { attempted: 0, found: 0, worst_res_over_tol: 0.0, worst_dlnf_times_t_over_tol: 0.0, worst_dp_over_tol: 0.0, worst_dt: 0.0, diagram_states: 0, negative_pressure: 0 };
+    let mut goals = ResGoals { v: header("ProgSem BubbleDewC05"), meta: Vec::new() };
+    goals.v.push_str("Open Scope R_scope.\n");
+    let mut files = Vec::new();
+    let mut samples = Vec::new();
+    let others: Vec<&str> = if full { vec!["hexane", "pentane", "heptane", "octane", "cyclohexane", "benzene", "toluene", "decane"] } else { vec!["hexane", "heptane", "cyclohexane"] };
+    let x_inits = [(0.9999, 0.0001), (0.9999, 0.01), (0.9999, 0.03), (0.999, 0.001), (0.99, 0.02)];
+    let n_t = if full { 5 } else { 2 };
+    let max_goals = if full { 40 } else { 10 };
+    let mut n_goals = 0;
+    for other in &others {
+        let Some(eos) = hetero_eos(other) else { continue };
+        for it in 0..n_t {
+            let t = if it == 0 && *other == "hexane" { 350.0 } else { rng.range(300.0, 400.0) };
+            // ---- temperature specified: several start compositions / options
+            let mut base: Option<Vlle> = None;
+            for (ix, xi) in x_inits.iter().enumerate() {
+                let opt = if ix == 0 { 0 } else { (ix + it) % 4 };
+                let c = HetCase { other: other.to_string(), tspec: true, spec: t, x_init: *xi, tp_init: None, opt };
+                st.attempted += 1;
+                if let Ok(v) = c.run(&eos) {
+                    st.found += 1;
+                    let bad = het_checks(&c, &v, &mut st);
+                    if !bad.is_empty() {
+                        failures.push(het_failure(&c, "hetero_T", bad.join("; ")));
+                    }
+                    if n_goals < max_goals && ix < 2 {
+                        het_goal(&mut goals, &c, &v);
+                        n_goals += 1;
+                    }
+                    if base.is_none() {
+                        if samples.len() < 3 {
+                            samples.push(json!({"system": ["water_np", other], "T": t, "p_heteroazeotrope_reduced": v.vapor().pressure(Contributions::Total).to_reduced(),
+                                "x_l1": v.liquid1().molefracs[0], "x_l2": v.liquid2().molefracs[0], "y": v.vapor().molefracs[0]}));
+                        }
+                        base = Some(v);
+                    }
+                }
+            }
+            let Some(b) = base else { continue };
+            let p_het = b.vapor().pressure(Contributions::Total).to_reduced();
+            let (xl1, xl2) = (b.liquid1().molefracs[0], b.liquid2().molefracs[0]);
+            // ---- temperature specified again: pressure guess, restart from the converged compositions
+            for (xi, pi, opt) in [((0.9999, 0.0001), Some(p_het * rng.range(0.8, 1.2)), 0usize), ((xl1, xl2), None, 0), ((xl1, xl2), Some(p_het), 2)] {
+                let c = HetCase { other: other.to_string(), tspec: true, spec: t, x_init: xi, tp_init: pi, opt };
+                st.attempted += 1;
+                if let Ok(v) = c.run(&eos) {
+                    st.found += 1;
+                    let bad = het_checks(&c, &v, &mut st);
+                    if !bad.is_empty() {
+                        failures.push(het_failure(&c, "hetero_T_guess", bad.join("; ")));
+                    }
+                }
+            }
+            // ---- pressure specified at the heteroazeotrope pressure of T (and at another pressure): temperature guesses off by up to 20 K,
+            //      several start compositions / options; the temperature found has to be T
+            for (k, xi) in x_inits.iter().enumerate() {
+                let dt = [5.0, -10.0, 20.0, -3.0, 12.0][k] * rng.range(0.5, 1.0);
+                let opt = if k == 0 { 0 } else { (k + it + 1) % 4 };
+                for (pspec, same) in [(p_het, true), (p_het * rng.range(0.7, 1.5), false)] {
+                    let c = HetCase { other: other.to_string(), tspec: false, spec: pspec, x_init: *xi, tp_init: Some(t + dt), opt };
+                    st.attempted += 1;
+                    if let Ok(v) = c.run(&eos) {
+                        st.found += 1;
+                        let mut bad = het_checks(&c, &v, &mut st);
+                        let tv = v.vapor().temperature.to_reduced();
+                        if same && !((tv - t).abs() <= 1e-6 * t) {
+                            bad.insert(0, format!("heteroazeotrope temperature {tv} at the heteroazeotrope pressure of {t} K"));
+                        }
+                        if !bad.is_empty() {
+                            failures.push(het_failure(&c, "hetero_p", bad.join("; ")));
+                        }
+                        if n_goals < max_goals && k < 2 {
+                            het_goal(&mut goals, &c, &v);
+                            n_goals += 1;
+                        }
+                    }
+                }
+            }
+            // restart of the pressure-specified solver from the converged compositions
+            {
+                let c = HetCase { other: other.to_string(), tspec: false, spec: p_het, x_init: (xl1, xl2), tp_init: Some(t + 1.0), opt: 0 };
+                st.attempted += 1;
+                if let Ok(v) = c.run(&eos) {
+                    st.found += 1;
+                    let bad = het_checks(&c, &v, &mut st);
+                    if !bad.is_empty() {
+                        failures.push(het_failure(&c, "hetero_p_restart", bad.join("; ")));
+                    }
+                }
+            }
+            // ---- the phase-diagram driver built on the heteroazeotrope: every two-phase state it returns
+            if it == 0 {
+                let mut worst = Worst { min_dist: f64::INFINITY, ..Default::default() };
+                for tspec in [true, false] {
+                    let r = if tspec {
+                        run_guard(|| feos_core::PhaseDiagram::binary_vlle(&eos, Temperature::from_reduced(t), (0.9999, 0.0001), Some(Pressure::from_reduced(p_het * 3.0)), None, Some(5), Some(3), Default::default()))
+                    } else {
+                        run_guard(|| feos_core::PhaseDiagram::binary_vlle(&eos, Pressure::from_reduced(p_het), (0.9999, 0.0001), Some(Temperature::from_reduced(t - 15.0)), Some(Temperature::from_reduced(t + 7.0)), Some(5), Some(3), Default::default()))
+                    };
+                    if let Ok(d) = r {
+                        let lle_states = d.lle.as_ref().map(|l| l.states.clone()).unwrap_or_default();
+                        for (part, vle) in d.vle1.states.iter().map(|s| ("vle1", s)).chain(d.vle2.states.iter().map(|s| ("vle2", s))).chain(lle_states.iter().map(|s| ("lle", s))) {
+                            st.diagram_states += 1;
+                            // the junction states are assembled from the heteroazeotrope (tolerance 1e-8 on the residual norm)
+                            let tol = Tol { lnf: 1e-7, p_abs: 1e-8, strict_roles: false };
+                            let mut bad = common_checks_tol(vle, if tspec { Some(t) } else { None }, &mut worst, tol);
+                            if !tspec {
+                                for q in [vle.vapor(), vle.liquid()] {
+                                    let pk = q.pressure(Contributions::Total).to_reduced();
+                                    if !((pk - p_het).abs() <= 1e-7 * p_het + 1e-8) {
+                                        bad.push(format!("pressure {pk} is not the specified {p_het}"));
+                                    }
+                                }
+                            }
+                            if !bad.is_empty() {
+                                let c = HetCase { other: other.to_string(), tspec, spec: if tspec { t } else { p_het }, x_init: (0.9999, 0.0001), tp_init: if tspec { None } else { Some(t + 7.0) }, opt: 0 };
+                                failures.push(het_failure(&c, if tspec { "binary_vlle_T" } else { "binary_vlle_p" }, format!("{part} state at x = {}: {}", vle.liquid().molefracs[0], bad.join("; "))));
+                            }
+                        }
+                    }
+                }
+            }
+            if goals.meta.len() >= 6 {
+                let name = format!("het_{}.v", files.len());
+                std::fs::write(format!("{out}/{name}"), &goals.v).unwrap();
+                files.push((name, std::mem::take(&mut goals.meta)));
+                goals.v = header("ProgSem BubbleDewC05");
+                goals.v.push_str("Open Scope R_scope.\n");
+            }
+        }
+    }
+    if !goals.meta.is_empty() {
+        let name = format!("het_{}.v", files.len());
+        std::fs::write(format!("{out}/{name}"), &goals.v).unwrap();
+        files.push((name, std::mem::take(&mut goals.meta)));
+    }
+    let stats = json!({"systems": others.iter().map(|o| json!(["water_np (tests/pcsaft/test_parameters.json)", o])).collect::<Vec<_>>(),
+        "heteroazeotropes_attempted": st.attempted, "heteroazeotropes_found_and_checked": st.found,
+        "worst_residual_norm_over_requested_tolerance": st.worst_res_over_tol, "worst_ln_f_difference_over_allowed": st.worst_dlnf_times_t_over_tol,
+        "worst_pressure_difference_over_allowed": st.worst_dp_over_tol, "worst_temperature_difference_between_phases": st.worst_dt,
+        "binary_vlle_states_checked": st.diagram_states, "results_at_negative_pressure_(metastable,_counted)": st.negative_pressure, "samples": samples,
+        "ranges": "water_np + alkane/aromatic (k_ij = 0), T in [300,400] K, 5 start compositions, T- and p-specified, guesses off by up to 20 K / 20 %, tol default/1e-6/1e-10, asymmetric bubble/dew options; an error is not a violation (no existence clause for three-phase equilibria)"});
+    (failures, stats, files)
+}
+
 fn main() {
     let cli = feos_verif::cli::Cli::parse("/verif/coq/gen/C05");
     let full = cli.full();
@@ -969,6 +1330,21 @@ fn main() {
             }
         }
         cli.write_impl(&json!({"property": "C05", "point": pt, "failures": r.failures, "counts": counts.to_vec(), "diagnostics": diag}));
+        return;
+    }
+    if let Some(hp) = cli.opt("--hetero-point") {
+        let c = HetCase::parse(&hp);
+        let eos = hetero_eos(&c.other).unwrap();
+        let mut st = HetStats { attempted: 0, found: 0, worst_res_over_tol: 0.0, worst_dlnf_times_t_over_tol: 0.0, worst_dp_over_tol: 0.0, worst_dt: 0.0, diagram_states: 0, negative_pressure: 0 };
+        let r = c.run(&eos);
+        let failures: Vec<Value> = match &r {
+            Ok(v) => {
+                let bad = het_checks(&c, v, &mut st);
+                if bad.is_empty() { vec![] } else { vec![het_failure(&c, "hetero", bad.join("; "))] }
+            }
+            Err(_) => vec![],
+        };
+        cli.write_impl(&json!({"property": "C05", "hetero_point": hp, "result": r.as_ref().map(|_| "ok".to_string()).unwrap_or_else(|e| e.clone()), "failures": failures}));
         return;
     }
     let mut rng = Rng(cli.seed ^ 0xC05C05);
@@ -1174,8 +1550,12 @@ fn main() {
         spec_files.push(format!("spec_{ci}.v"));
     }
 
+    let (het_failures, het_stats, het_files) = hetero_search(&out, full, cli.seed);
+    failures.extend(het_failures);
+    goal_files.extend(het_files);
     let res = json!({
         "property": "C05", "tier": cli.tier, "seed": cli.seed,
+        "hetero": het_stats,
         "rr": rr_json,
         "split": {"files": split_files, "chunk": 8, "cases": split_json},
         "res_goals": goal_files.iter().map(|(f, m)| json!({"file": f, "goals": m})).collect::<Vec<_>>(),
